@@ -1,7 +1,6 @@
 package main
 
 func init() {
-	notApplicable["C20"] = "the simulator builds its header by string templating (fmt.Sprintf %012s, strings.Replace, hex.DecodeString - library functions without models) and takes bodies from a table of Handler interface values; 'every generated frame is accepted by the decoder with that ID, phone and serial' is Decode(Encode(h, body)) = (h, body), the composition C01 leaves undecided (two counting functions, induction over both arrays). What remains within reach - CreateCommandData sets the reply ID, increments the serial by one and calls Header.Encode, whose layout contract is discharged under C01 - is one line and carries none of the statement; no check is registered"
 	notApplicable["C12"] = "command/response matching lives in goroutine, channel and timer interplay (onActiveEvent/onActiveRespondEvent/write); no sequential function contract within the verifier's subset carries the claim"
 	notApplicable["C13"] = "a statement about channel closure and blocked callers under all schedules; contracts over sequential semantics cannot state it"
 	notApplicable["C18"] = "data-race freedom is a property of schedules; the deductive verifier models one goroutine's sequential semantics only"
@@ -73,10 +72,18 @@ func init() {
 			"framelemma:jt808.ec", "framelemma:jt808.sc", "framelemma:utils.xorfold",
 			"jt808.(*BodyProperty).encode", "jt808.(*BodyProperty).decode", "jt808.(*Header).Encode", "jt808.(*Header).decode",
 			"jt808.(*JTMessage).Decode", "utils.CreateVerifyCode",
+			"jt808.rtMessage", "jt808.rtEscape", "jt808.rtUnescape",
+			"lemma:jt808.link", "lemma:jt808.prev", "lemma:jt808.scMono", "lemma:jt808.xcong",
 		},
-		Decided: "escape: 0x7e occurs only as first and last byte, every input byte is placed (plain or as its pair) at the index given by the counting function, length; " +
-			"unescape: inverse content clause; property-word bit layout of encode/decode; Header.Encode lays out id, property word, version byte, phone, serial, body, XOR and escapes",
-		Undecided: []string{"the composition unescape(escape(d)) = d links the two counting functions by an induction over both arrays; see DESIGN.md for its status"},
+		Decided: "end to end (harness rtMessage = Decode(Encode(h, body)) on the real functions, both by contract): for every header as Header.decode produces it (2013/2019, " +
+			"any fragment/encrypt/reserved bits, any BCD phone, any IDs and serials) and every body of 0..1023 bytes the frame is accepted and yields the reply ID, the phone bytes, the " +
+			"protocol version, the platform serial and a byte-identical body; " +
+			"escape: 0x7e occurs only as first and last byte, every input byte is placed (plain or as its pair) at the index given by the counting function, length; " +
+			"unescape: inverse content clause; unescape(escape(d)) == d for every non-empty d (harness rtEscape; lemmas link, prev, scMono by induction); " +
+			"property-word bit layout of encode/decode; Header.Encode: its payload (ghost) has the layout id, property word with the fragment bit cleared, version byte, phone, serial, body, XOR " +
+			"and the result is its escaped image; Decode: accepted iff the unescaped text (ghost) passes XOR, header and length checks, every field is read from it",
+		Undecided: []string{"Header.TerminalPhoneNo (the decimal string) is Bcd2Dec of the phone bytes, which are proved identical; Bcd2Dec itself is outside C01's contracts",
+			"escape of the empty payload yields 7e 7e, which unescape rejects: the composition lemma is stated for non-empty payloads (Encode's payload has at least 13 bytes)"},
 	})
 }
 
@@ -284,6 +291,25 @@ func init() {
 			"the last step from (1)-(4) to 'the message sequence is the same for every partition into reads' is an induction over the reads (pen and paper; each call's effect depends only on the concatenation)",
 			"bytes before the first delimiter (never sent by a conforming terminal) are treated differently by the two paths: the fast path fails the connection, the buffered path waits",
 			"connection.reader's 1023-byte read loop (goroutine, socket)",
+		},
+	})
+}
+
+func init() {
+	registerProp(&PropDef{
+		ID:    "C20",
+		Title: "The terminal simulator and the codec agree (kernel: CreateCommandData frames)",
+		Roots: []string{"terminal.rtCommand"},
+		Decided: "harness rtCommand = Decode(t.CreateCommandData(cmd, body)) on the real functions (CreateCommandData inlined, Header.Encode and JTMessage.Decode by contract, " +
+			"the end-to-end argument of C01 repeated over the simulator's header): for every command ID, every custom body of at most 1023 bytes and every simulator header in the " +
+			"domain (as Header.decode leaves it, protocol version 2011/2013 with a 6-byte phone or 2019 with the version flag and a 10-byte phone) the generated frame is accepted by the " +
+			"frame decoder with that command ID, the simulator's phone bytes, the header layout of its version, a serial number one greater than the previous frame's (wrapping at 65535) " +
+			"and a byte-identical body; the simulator's own serial advances by one per frame",
+		Undecided: []string{
+			"WithHeader builds the header by string templating (fmt.Sprintf %012s, strings.Replace, hex.DecodeString - library functions without models): that its result lies in the domain is an assumption (precondition C20.dom)",
+			"CreateDefaultCommandData and ExpectedReply take bodies and reply bodies from a table of Handler interface values (dynamic dispatch over ~30 types): not reached; the bodies' own parse/re-encode agreement is C07's subject for the types covered there",
+			"equality of the predicted reply with what a live service.GoJT808 sends (goroutines, sockets)",
+			"the decimal phone string (Bcd2Dec of the proved-identical phone bytes)",
 		},
 	})
 }
